@@ -23,6 +23,14 @@ def write_file(path, cfg0, decorated=False, capitals=False):
             secs.setdefault(name.split(".", 1)[0], []).append((name.split(".", 1)[1], text))
         with open(path, "w") as f:
             for sec, kv in secs.items():
+                if capitals == "headers":
+                    # the SECTION header typed in capitals, keys as they are: section names are case sensitive, so such a section supplies
+                    # nothing -- and must not supply something in one run and nothing in the next
+                    f.write("[%s]\n" % sec.upper())
+                    for k2, v2 in kv:
+                        f.write("%s = %s\n" % (k2, v2))
+                    f.write("\n")
+                    continue
                 f.write("[%s]\n" % sec)
                 for k2, v2 in kv:
                     f.write("%s = %s\n" % (k2.capitalize() if len(k2) > 1 else k2.upper(), v2))
@@ -199,13 +207,13 @@ def c13_sessions(tier, rep, cov):
             by_sec = {}
             for i in inputs:
                 by_sec.setdefault(i.split(".")[0], []).append(i)
-            for style in ("every-section", "random", "capitals"):
+            for style in ("every-section", "random", "capitals", "headers"):
                 if style == "every-section":
                     cfg0 = {v[0]: answers[v[0]] for v in by_sec.values() if len(v) > 1}
                 else:
                     cfg0 = {i: answers[i] for i in inputs if rng.random() < (0.3 if style == "random" else 0.7)}
                 sid += 1
-                sessions.append(one_session(sid, 1970, prog["request"], cfg0 or None, answers, "0", None, None, work, capitals=(style == "capitals")))
+                sessions.append(one_session(sid, 1970, prog["request"], cfg0 or None, answers, "0", None, None, work, capitals=(True if style == "capitals" else ("headers" if style == "headers" else False))))
                 meta[sid] = {"prog": prog["id"], "cfg0": cfg0, "answers": answers, "style": style}
         F.available_forms.pop(1970, None)
         for n in range(3 if tier == "quick" else 30):
@@ -223,6 +231,10 @@ def c13_sessions(tier, rep, cov):
             sid += 1
             sessions.append(one_session(sid, year, request, part, answers, "", None, None, work))
             meta[sid] = {"year": year, "request": request, "file": part, "answers": answers}
+            # the same file with its section headers in capitals ([W-2:0]): those sections supply nothing, in the first run and in the re-run alike
+            sid += 1
+            sessions.append(one_session(sid, year, request, part, answers, "", None, None, work, capitals="headers"))
+            meta[sid] = {"year": year, "request": request, "file": part, "answers": answers, "style": "section headers in capitals"}
         path = os.path.join(work, "sess.json")
         json.dump({"sessions": [{k: v for k, v in s.items() if k not in ("ended", "interrupted", "nq")} for s in sessions]}, open(path, "w"))
         cfgp = os.path.join(work, "t.cfg")
